@@ -1,9 +1,15 @@
 """Class invariant wf (DESIGN §3.2): whatever an object exposes next to (Lambda, nu) is consistent with it."""
 
 
+DECLARED_MEASURE_STATE = {"Lambda", "nu", "ln_beta", "Sigma", "ln_det_Lambda", "ln_det_Sigma", "lnZ", "mu"}
+
+
 def wf_measure(w, pfx, obj, is_pdf=False, logdet=True):
     """clauses `pfx/wf/...` for a GaussianMeasure-like object (measure, diag measure, pdf)"""
     xp = w.xp
+    extra = sorted(set(obj.__dict__) - DECLARED_MEASURE_STATE)
+    w.check(f"{pfx}/wf/state-covered-by-invariant", not extra,
+            f"attributes the class invariant does not cover (an undeclared cache cannot be kept consistent): {extra}")
     L, nu = obj.Lambda, obj.nu
     Dsz = L.shape[-1]
     Sg = getattr(obj, "Sigma", None)
